@@ -33,6 +33,27 @@ def parseResp (s : String) : Option Resp :=
   else if s.startsWith "fwd:" then ((s.drop 4).toString.toNat?).map .forward
   else none
 
+/-- the request targets the model speaks about: origin-form or absolute-form path starting with '/', CONNECT
+    without path; printable ASCII without space, '?', '#' (query and fragment are not modelled) -/
+def targetInDomain (form : String) (p : Str) : Bool :=
+  p.all (fun c => 33 ≤ c && c < 127 && c != 63 && c != 35) &&
+  (if form = "c" then p.isEmpty else p.head? = some 47)
+
+def plActString : PlAct → String
+  | .refuseClose => "rc"
+  | .challenge => "ch"
+  | .tunnel => "tun+"
+  | .fetch => "get+"
+
+/-- "<method> <authtok>" pairs -/
+def parsePlReqs : List String → Option (List PlReq)
+  | [] => some []
+  | m :: a :: rest =>
+    match unhx m, parseAuthTok a, parsePlReqs rest with
+    | some m, some a, some r => some (⟨m, a⟩ :: r)
+    | _, _, _ => none
+  | _ => none
+
 def httpAuthStep (st : HttpAuthState) (tok : List String) (impl : String) : HttpAuthState × Verdict :=
   match tok with
   | ["reset"] => ({}, verdictOf "-" impl)
@@ -48,12 +69,15 @@ def httpAuthStep (st : HttpAuthState) (tok : List String) (impl : String) : Http
     | some d, some l, some ru => ({ st with T := { st.T with R := del st.T.R d l ru } }, verdictOf "-" impl)
     | _, _, _ => (st, .bad "unreg")
   | ["req", form, h, p, a, pa] =>
+    -- `p` is the path part of the request target as sent (percent-encoded)
     match unhx h, unhx p, parseAuthTok a, parseAuthTok pa with
     | some h, some p, some a, some pa =>
-      let q : Req := { host := h, urlHost := if form = "o" then [] else h, path := p, auth := a, pauth := pa }
-      let m := serve st.T q
-      let prop := (parseResp impl).map (fun r => C07.holdsOn st.T q r)
-      (st, verdictOf (respString m) impl prop)
+      if !targetInDomain form p then (st, .skip "request target outside the modelled syntax") else
+      let w : WireReq := { host := h, proxied := form != "o", target := p, auth := a, pauth := pa }
+      let m := serveWire st.T w
+      let implR : Option (Option Resp) := if impl = "st:400" then some none else (parseResp impl).map some
+      let prop := implR.map (fun r => C07.holdsOnWire st.T w r)
+      (st, verdictOf (match m with | some r => respString r | none => "st:400") impl prop)
     | _, _, _, _ => (st, .bad "req")
   | ["mreg", d, ru, u, p, id] =>
     match unhx d, unhx ru, unhx u, unhx p, id.toNat? with
@@ -93,6 +117,16 @@ def httpAuthStep (st : HttpAuthState) (tok : List String) (impl : String) : Http
       let prop := if impl = "true" then some (decide ((u = [] ∧ p = []) ∨ a = some (u, p))) else some true
       (st, verdictOf (if m then "true" else "false") impl prop)
     | _, _, _ => (st, .bad "pl")
+  | "plc" :: u :: p :: rest =>
+    -- one work connection given to the real HTTPProxy.Handle; impl = per-request answers joined by ','
+    -- ("+" suffix = the target behind the plugin saw that request)
+    match unhx u, unhx p, parsePlReqs rest with
+    | some u, some p, some qs =>
+      let acts := pluginHandle ⟨u, p⟩ qs
+      let ms := ",".intercalate (acts.map plActString)
+      let reached := (impl.splitOn ",").map (fun t => t.endsWith "+")
+      (st, verdictOf ms impl (some (C07.plHoldsOn ⟨u, p⟩ qs reached)))
+    | _, _, _ => (st, .bad "plc")
   | _ => (st, .bad "op")
 
 def httpauth : Engine := { State := HttpAuthState, init := {}, step := httpAuthStep }
